@@ -113,9 +113,7 @@ package store
 
 // put: the empty block is only linked; any other block goes through exactly one of the two creation
 // routines, chosen by the caller's flag, and nil is returned only when its files are complete.
-//@ pure func dahHash(d da.DataAvailabilityHeader) []byte
-//@ extern (*github.com/celestiaorg/celestia-app/v9/pkg/da.DataAvailabilityHeader).Hash
-//@   ensures result == dahHash(deref(dah))
+// (dahHash and the contract of DataAvailabilityHeader.Hash: see header/zz_contracts_verif.go)
 
 //@ func (*Store).put
 //@   property C07 C15
